@@ -38,7 +38,8 @@ def run(ctx):
             # mechanism layer: the very list order the code threads (drift only)
             for x in ctx.validate("Cache/HashMapTrace.tla", "HashMapTrace.cfg", t, env={"STRICT": "1"}):
                 ctx.drift.append("hash_map list order differs from the as-coded threading at %s" % x["event"][:120])
-    strmap(ctx, big)
+    if big:
+        strmap(ctx, big)   # string_map leg: thorough tier only until its trace validation is made cheaper (per-state invariants walk the table)
 
 
 def strmap(ctx, big):
